@@ -42,9 +42,12 @@ func InjectDiagnostics(content string, diags []Diagnostic, color output.Color) s
 	diagPositions := make([]PositionRanges, len(diags))
 	for i, diag := range diags {
 		dl := diag.Pos.Len()
+		// Never select an empty range: a diagnostic about an empty value (for: "") still needs
+		// a place for its message, point at the first position then.
+		first := max(1, min(diag.FirstColumn, dl))
 		diagPositions[i] = readRange(
-			min(diag.FirstColumn, dl),
-			min(diag.LastColumn, dl),
+			first,
+			max(first, min(diag.LastColumn, dl)),
 			diag.Pos,
 		)
 	}
